@@ -15,7 +15,7 @@ KEYS = [0, 1, 2]
 PROFILE_DYN = dict(call_dyn=30, call=8, get_item=10, del_item=4, set_value_dyn=6, set_value=2,
                    clear_at_dyn=3, set_formula=9, set_cached=3, set_ref=10, del_ref=3,
                    new_cells=3, del_cells=2, set_pf=3, add_bases=4, remove_bases=2,
-                   new_space=2, del_space=0.4)
+                   new_space=2, del_space=0.4, invalid=3)
 
 
 # deletion-heavy schedule (C13 in the ItemSpace world): several instances alive,
@@ -394,6 +394,56 @@ class GenDyn(Gen):
         c = rng.choice(free)
         return {"op": "new_cells", "s": list(p), "c": c,
                 "rec": {"f": self.formula(p, c), "cached": rng.random() >= self.p_uncached, "an": 0}}
+
+    def mk_invalid(self):
+        """An edit that modelx must refuse, made while instances are alive and hold assigned
+        values: refused means nothing changed, INSIDE the instances too."""
+        rng = self.rng
+        bases = [q for q in self.mir["sp"] if q[0] == "P" or q in (["B"], ["R"])]
+        p = rng.choice(bases)
+        k = rng.randrange(5)
+        op = None
+        if k <= 1:      # malformed formula text, for a new or an existing cells
+            if "BAD" not in self.flib:
+                self.flib["BAD"] = {"ps": [], "ops": [], "catch": False, "onerr": 0,
+                                    "style": "def", "bad": True}
+            cs = self.enames_cells(p)
+            free = [n for n in ("x", "y", "z") if n not in cs and n not in self.mir["refs"][tp(p)]]
+            own = [c for c in cs if c in self.mir["cells"][tp(p)]]
+            if k == 0 and free:
+                op = {"op": "new_cells", "s": list(p), "c": rng.choice(free),
+                      "rec": {"f": "BAD", "cached": True, "an": 0}, "expect": "syntax"}
+            elif own:
+                op = {"op": "set_formula", "s": list(p), "c": rng.choice(own), "f": "BAD",
+                      "via": "prop", "expect": "syntax"}
+        elif k == 2:    # a cells named like a reference of the space
+            taken = [n for n in self.mir["refs"][tp(p)] if n in ("r", "s", "g")]
+            if taken:
+                nm = rng.choice(taken)
+                self.sigs.setdefault(nm, [])
+                self.rank.setdefault(nm, 0)
+                op = {"op": "new_cells", "s": list(p), "c": nm,
+                      "rec": {"f": self.formula(p, "x" if "x" in self.sigs else nm), "cached": True, "an": 0},
+                      "expect": "clash"}
+        elif k == 3:    # None assigned where None is not allowed
+            cells = [(q, c) for q, c in self.all_cells() if q in bases]
+            if cells:
+                q, c = rng.choice(cells)
+                op = {"op": "set_value", "c": [list(q), [], c], "args": self.rand_args(c, False),
+                      "v": -2, "expect": "none"}
+        else:           # a derived cells cannot be deleted
+            der = [(q, c) for q in bases for c in self.enames_cells(q) if c not in self.mir["cells"][tp(q)]]
+            if der:
+                q, c = rng.choice(der)
+                op = {"op": "del_cells", "s": list(q), "c": c, "via": "attr", "expect": "derived"}
+        if op is None:
+            return None
+        if rng.random() < 0.6:
+            pre = self.mk_set_value_dyn()       # an assigned value inside an instance, first
+            if pre:
+                self.queue.append(op)
+                return pre
+        return op
 
     def mk_del_cells(self):
         cells = [(p, c) for p, c in self.all_cells() if p != ["S"]]
